@@ -129,14 +129,18 @@ def history(draw, with_faults):
     overflow = draw(st.sampled_from(["crop", "ellipsis", "visible"]))
     transient = draw(st.booleans())
     n = draw(st.integers(1, 40 if not with_faults else 14))
+    shrink = draw(st.one_of(st.none(), st.none(), st.integers(4, 8))) if (kind == "live" and not with_faults) else None
+    if shrink is not None and shrink >= H:
+        shrink = None
     if kind == "live":
-        ops = draw(st.lists(live_ops(H, overflow != "visible"), min_size=1, max_size=n))
+        ops = draw(st.lists(live_ops(shrink or H, overflow != "visible"), min_size=1, max_size=n))
     elif kind == "progress":
         ops = draw(st.lists(progress_ops(), min_size=1, max_size=n))
     else:
         ops = draw(st.lists(status_ops(), min_size=1, max_size=n))
-    spec = {"kind": kind, "W": W, "H": H, "overflow": overflow, "transient": transient, "ops": ops, "initial": draw(frame_lines(3)), "redirect": draw(st.booleans()),
-            "redirect_err": draw(st.booleans()), "disable": kind == "progress" and draw(st.sampled_from([False, False, False, True]))}
+    spec = {"kind": kind, "W": W, "H": H, "overflow": overflow, "transient": transient, "ops": ops, "initial": draw(frame_lines(min(3, (shrink or H) - 1))), "redirect": draw(st.booleans()),
+            "redirect_err": draw(st.booleans()), "disable": kind == "progress" and draw(st.sampled_from([False, False, False, True])),
+            "shrink": shrink}
     if with_faults:
         spec["fault"] = draw(st.one_of(
             st.builds(lambda k, p, c, b: {"mode": "render", "at": k, "persistent": p, "catch": c, "base": b}, st.integers(0, 12), st.booleans(), st.booleans(), st.sampled_from([False, False, True])),
@@ -153,7 +157,9 @@ class Runner:
         self.ctx = ctx
         self.W, self.H = spec["W"], spec["H"]
         self.con, self.file, self.twin = make_consoles(self.W, self.H)
-        self.vt = VT(self.W, self.H)
+        # "shrink": the terminal is made shorter right after the display was started (before anything is on the screen): the screen model has the new height from the beginning
+        self.shrink = spec.get("shrink") if (spec.get("shrink") and spec["kind"] == "live" and spec["shrink"] < spec["H"]) else None
+        self.vt = VT(self.W, self.shrink or self.H)
         self.fed = 0
         f = spec.get("fault") or {}
         self.fault = Fault(f.get("at") if f.get("mode") == "render" else None, f.get("persistent", False), f.get("base", False))
@@ -375,6 +381,11 @@ class Runner:
                     return self.sync(op, top)
                 d.start()
                 self.started = True
+                if self.shrink and self.H != self.shrink:
+                    self.H = self.shrink
+                    self.con._height = self.shrink
+                    self.twin._height = self.shrink
+                    self.ctx.cls("terminal-made-shorter-after-start")
                 if self.kind == "progress":
                     self.drawn = self.frame_now()
                 return self.sync(op, top)
